@@ -96,6 +96,12 @@ def atlas_path_docs():
             "put": op("shared_same_location", [P("version", "header", {"type": "integer"}, False), P("page", "query", {"type": "string"}, True)]),
             "post": op("shared_untouched"),
         },
+        # path-item-level parameters whose INLINE schema creates a class (enum / object): the class must reach models/
+        "/reports/{report-id}": {
+            "parameters": [P("report-id", "path", {"type": "string"}), P("format", "query", {"type": "string", "enum": ["csv", "json"]}, False),
+                           P("X-Level", "header", {"type": "integer", "enum": [1, 2, 3]}, False)],
+            "get": op("get_report"), "delete": op("delete_report", [P("force", "query", {"type": "boolean"}, False)]),
+        },
         "/refd/{itemId}": {
             "parameters": [{"$ref": "#/components/parameters/XTraceId"}],
             "get": op("ref_params", [P("itemId", "path", {"type": "integer"}), {"$ref": "#/components/parameters/PageSize"}, {"$ref": "#/components/parameters/SessionId"}]),
@@ -134,6 +140,8 @@ def atlas_body_docs():
                                   params=[P("q", "query", {"type": "string"}, False), P("X-H", "header", {"type": "string"}, False)])},
         "/multi/same": {"post": op("same_schema_two_media", body={"content": {"application/json": {"schema": {"$ref": REF + "Other"}},
                                                                                 "application/x-www-form-urlencoded": {"schema": {"$ref": REF + "Other"}}}})},
+        "/multi/twojson": {"patch": op("two_json_kinds", body={"content": {"application/json": {"schema": {"$ref": REF + "Item"}},
+                                                                            "application/merge-patch+json": {"schema": {"$ref": REF + "Other"}}}})},
         "/multipart/model": {"post": op("multipart_model", body={"content": {"multipart/form-data": {"schema": {"$ref": REF + "Upload"}}}})},
         "/multipart/nullfirst": {"post": op("multipart_null_first", body={"content": {"multipart/form-data": {"schema": {"$ref": REF + "NullFirst"}}}})},
         "/multipart/files": {"post": op("multipart_file_list", body={"content": {"multipart/form-data": {"schema": {"$ref": REF + "UploadMany"}}}})},
@@ -185,9 +193,16 @@ def atlas_response_docs():
                                                                     "201": {"description": "d", "content": {"application/json;charset=utf-8": {"schema": {"$ref": REF + "Other"}}}},
                                                                     "202": {"description": "d", "content": {"text/plain ;charset=iso-8859-1": {"schema": {"type": "string"}}}},
                                                                     "203": {"description": "d", "content": {"application/problem+json; profile=x": {"schema": {"$ref": REF + "Other"}}}}})},
+        # one component response with an INLINE object schema shared by two operations at the same status
+        "/r/shared/pet": {"get": op("shared_pet", responses={"200": Jc({"$ref": REF + "Item"}), "404": {"$ref": "#/components/responses/NotFound"}})},
+        "/r/shared/owner": {"get": op("shared_owner", responses={"200": Jc({"$ref": REF + "Other"}), "404": {"$ref": "#/components/responses/NotFound"}})},
+        # unions whose scalar member precedes / follows a model member
+        "/r/union/scalarfirst": {"get": op("union_scalar_first", responses={"200": Jc({"oneOf": [{"type": "string"}, {"$ref": REF + "Item"}]}), "201": Jc({"oneOf": [{"type": "integer"}, {"$ref": REF + "Other"}]})})},
+        "/r/union/modelfirst": {"get": op("union_model_first", responses={"200": Jc({"oneOf": [{"$ref": REF + "Item"}, {"type": "string"}]})})},
         "/r/enumlist": {"get": op("enum_list", responses={"200": Jc(arr({"$ref": REF + "Level"})), "500": Jc(obj({"msg": {"type": "string"}}))})},
     }
-    extra = {"components": {"responses": {"Ok": Jc({"$ref": REF + "Item"}), "Missing": {"description": "m", "content": {"text/plain": {"schema": {"type": "string"}}}}}}}
+    extra = {"components": {"responses": {"Ok": Jc({"$ref": REF + "Item"}), "Missing": {"description": "m", "content": {"text/plain": {"schema": {"type": "string"}}}},
+                                          "NotFound": Jc(obj({"message": {"type": "string"}, "code": {"type": "integer"}}, required=["message"]))}}}
     return [("responses", doc(paths, extra=extra))]
 
 
